@@ -59,6 +59,7 @@ Inductive resp :=
 | RNum (n : N)
 | RDoc (body : option string) (xs : list (string * string)) (cas : N)
 | RXattrs (xs : list (string * string)) (cas : N)
+| RRows (rows : list string)              (* the rows of a query, as the JSON text NextBytes returns *)
 | RErr (e : err).
 
 Record kres := mkRes {
